@@ -44,7 +44,7 @@ from modelx.core.space import (
     SpaceView,
     RefDict
 )
-from modelx.core.formula import NULL_FORMULA
+from modelx.core.formula import NULL_FORMULA, Formula
 from modelx.core.util import is_valid_name, AutoNamer
 from modelx.core.chainmap import CustomChainMap
 
@@ -1368,6 +1368,12 @@ class SpaceManager(SharedSpaceOperations):
                   is_derived=False, is_cached=True):
 
         # FIX: Creating a Cells of the same name in ``space``
+
+        if name is None and formula is not None:
+            # The cells is named after the function: check that name
+            funcname = Formula(formula).name
+            if is_valid_name(funcname):
+                name = funcname
 
         if not self._can_add(space, name, CellsImpl):
             raise ValueError("Cannot create cells '%s'" % name)
